@@ -11,7 +11,10 @@ open Debug C19
 
 def env : Env :=
   { sig := { params := [.int], velem := none, nOut := 1, isMethod := false }, kind := .patch, name := "strconv.Itoa",
-    render := fun v => some v.tok, orig := fun a => [intVal (sumV a)], loggerCalls := true }
+    render := fun v => some v.tok, orig := fun a => [intVal (sumV a)] }
+
+/-- `strconv.Itoa` is in the list of functions the console logger calls -/
+theorem logger_calls_it : env.loggerCalls = true := by decide
 
 def ops : List Op := [.apply { name := "sum1", kind := .sum, k := 1 }, .call [intVal 5]]
 
